@@ -612,6 +612,33 @@ def checked_inputs(F, unit_fn):
             for e in best[2]:
                 if isinstance(e, list) and e[0] == "f" and len(e) > 3 and e[3]:
                     ty = e[3]
-            sig = "%s#%s" % (_strip_ty(ty), ".".join(rest))
+            sig = "%s%s#%s" % ("" if fn is unit_fn else "closure:", _strip_ty(ty), ".".join(rest))
             res.setdefault(sig, set()).add(best[0] + ("." + ".".join(rest) if rest else ""))
+    res["_closures"] = {f["id"] for f in fns[1:]}
     return res
+
+
+def rejection_points(body):
+    """number of decisions in `body` that reject: switches with one successor from which an accepting exit is still reachable
+    (without passing a rejecting block) and another from which it is not.  Linear: one backward reachability from the accepting exits."""
+    rej = reject_blocks(body)
+    if not rej:
+        return 0
+    oks = set(ok_exits(body) if returns_result(body) else body.return_blocks()) - set(rej)
+    preds = body.preds()
+    acc = set()
+    st = list(oks)
+    while st:
+        x = st.pop()
+        if x in acc or x in rej:
+            continue
+        acc.add(x)
+        st.extend(preds.get(x, []))
+    n = 0
+    for sb in range(body.n):
+        if body.term(sb)["k"] != "switch" or sb not in acc:
+            continue
+        succ = body.succ(sb)
+        if any(s not in acc for s in succ) and any(s in acc for s in succ):
+            n += 1
+    return n
